@@ -20,6 +20,29 @@ theorem cnt_succ_left (g : Nat → Bool) (n : Nat) :
   congr 1
   apply cnt_congr; intro k _; rw [Nat.add_comm]
 
+theorem popcAux_spec : ∀ (fuel w acc : Nat),
+    popcAux fuel w acc = acc + cnt (fun j => w.testBit j) fuel := by
+  intro fuel
+  induction fuel with
+  | zero => intro w acc; simp [popcAux]
+  | succ fuel ih =>
+    intro w acc
+    unfold popcAux
+    by_cases hw : w = 0
+    · subst hw
+      rw [if_pos rfl, cnt_false (by intro k _; simp)]; rfl
+    · rw [if_neg hw, ih, cnt_succ_left]
+      have hshift : (fun j => w.testBit (j + 1)) = (fun j => (w / 2).testBit j) := by
+        funext j; rw [testBit_div_two]
+      rw [hshift]
+      have : w % 2 = if w.testBit 0 then 1 else 0 := by
+        rw [Nat.testBit_zero]
+        rcases Nat.mod_two_eq_zero_or_one w with h | h <;> simp [h]
+      rw [this]; omega
+
+theorem popc_eq_popcount (w : Nat) : popc w = popcount 64 w := by
+  unfold popc; rw [popcAux_spec, Nat.zero_add]; rfl
+
 /-- the scan finds the set bit of rank `k` among the low `fuel` bits -/
 theorem selectInWordAux_spec : ∀ (fuel w k pos : Nat), k < cnt (fun j => w.testBit j) fuel →
     ∃ q, q < fuel ∧ selectInWordAux fuel w k pos = pos + q ∧ w.testBit q = true ∧
@@ -125,7 +148,7 @@ theorem selectHintedLoop_correct (zero : Bool) (ws : Array Nat) (len rank p : Na
     have hp : p < 64 * wi + 64 := by omega
     have hlt := hsel.at.lt_cnt_of_lt hp
     unfold selectHintedLoop
-    simp only
+    simp only [popc_eq_popcount]
     rw [if_pos (by omega)]
     have hs := selectInWord_spec word residual (by omega)
     obtain ⟨hq, hb, hc⟩ := hs
@@ -148,7 +171,7 @@ theorem selectHintedLoop_correct (zero : Bool) (ws : Array Nat) (len rank p : Na
     have hp : 64 * wi + 64 ≤ p := by omega
     have hle := hsel.at.cnt_le_of_le hp
     unfold selectHintedLoop
-    simp only
+    simp only [popc_eq_popcount]
     rw [if_neg (by omega)]
     have hsz : wi + 1 < ws.size := by have := hsel.1; omega
     have hrd := readU_ok_of_lt hsz
